@@ -259,7 +259,6 @@ Definition tok_impl (a : attrs) (t : tkind) (s : str) (loc : nat) : impl_res :=
           let follows := match at_ s e with Some c => isbody c | None => false end in
           let precedes := match loc with 0 => false | S p => match at_ s p with Some c => isbody c | None => false end end in
           if Nat.ltb (e - loc) minl then pexc a e
-          else if maxspec && follows then pexc a e
           else if askw && (precedes || follows) then pexc a e
           else IOk e (RStr (slice_ s loc e))
     end
@@ -339,8 +338,15 @@ Inductive act_res :=
 | ActReplace (x : raw)        (* returned something else *)
 | ActRaise (x : exn).
 
-Definition first_len (r : pres) : option nat :=
-  match toks r with TStr s :: _ => Some (length s) | _ => None end.
+(* len(t[0]) : Some (inl n) | IndexError on an empty result | TypeError when t[0] has no len() *)
+Definition first_len (r : pres) : option (nat + xkind) :=
+  match toks r with
+  | TStr s :: _ => Some (inl (length s))
+  | TPR p :: _ => Some (inl (length (toks p)))
+  | TList l :: _ => Some (inl (length l))
+  | (TInt _ | TBool _ | TNone) :: _ => Some (inr XType)
+  | [] => None
+  end.
 
 Definition run_action (ac : action) (loc : nat) (r : pres) : act_res :=
   match ac with
@@ -356,8 +362,9 @@ Definition run_action (ac : action) (loc : nat) (r : pres) : act_res :=
   | ARaise k id => ActRaise (mkx k (Z.of_nat loc) (MUser id) None)
   | ACond minlen fatal id =>
     match first_len r with
-    | Some n => if Nat.leb minlen n then ActKeep r
-                else ActRaise (mkx (if fatal then XFatal else XParse) (Z.of_nat loc) (MUser id) None)
+    | Some (inl n) => if Nat.leb minlen n then ActKeep r
+                      else ActRaise (mkx (if fatal then XFatal else XParse) (Z.of_nat loc) (MUser id) None)
+    | Some (inr k) => ActRaise (mkx k (Z.of_nat loc) MEmpty None)  (* len() of an int / bool / None: TypeError *)
     | None => ActRaise (mkx XIndex (Z.of_nat loc) MEmpty None)     (* t[0] on an empty result: IndexError *)
     end
   end.
